@@ -84,7 +84,7 @@ impl<W: AsyncWrite + Unpin> AsyncWriter<W> {
         if self.buffer.len() - 4 > self.max_len {
             return Err(Error::InvalidLen)
         }
-        let prefix = (self.buffer.len() as u32 - 4).to_be_bytes();
+        let prefix = ((self.buffer.len() - 4) as u32).to_be_bytes();
         self.buffer[.. 4].copy_from_slice(&prefix);
         self.state = State::WriteFrom(0);
 
